@@ -273,6 +273,10 @@ def tensor_binop(it: Any, name: str, a: Any, b: Any, node: Any, inplace: bool) -
         # out-of-place arithmetic of two dimensioned tensors: PyTorch type promotion (in place, the
         # receiver's dtype is kept)
         dtype = ("promote", tuple(sorted((str(a.dtype), str(b.dtype)))))
+    if both_tensor and not inplace and a.dtype is not None and b.dtype is not None and a.dtype != b.dtype and a.shape is not None and b.shape is not None and len(a.shape) == 0 and len(b.shape) == 0:
+        # two 0-d tensors: neither is "the scalar", so the wider dtype of the same category wins (for a
+        # dimensioned receiver a 0-d operand of the same category leaves the dtype alone)
+        dtype = ("promote", tuple(sorted((str(a.dtype), str(b.dtype)))))
     if name in ("lt", "le", "gt", "ge", "eq", "ne"):
         dtype = "torch.bool"
     res = TV(T(name, (ta, tb)), shape=shape, dtype=dtype)
@@ -847,6 +851,8 @@ def call_ext(it: Any, f: ExtV, args: List[Any], kwargs: Dict[str, Any], node: An
         x = args[0] if args else kwargs.get("data")
         dt = canon_dtype(kwargs.get("dtype")) if "dtype" in kwargs else None
         if isinstance(x, (int, sp.Basic)) and not isinstance(x, bool):
+            if dt is None and "dtype" not in kwargs and (isinstance(x, int) or getattr(x, "is_integer", False) or (isinstance(x, sp.Basic) and x.is_integer is not False and not x.atoms(sp.Float) and x.free_symbols and all(s_.is_integer for s_ in x.free_symbols))):
+                dt = "torch.int64"  # torch.tensor(<python int>) is a 0-d int64 tensor
             return TV(T("tensor", (num(x),)), const=num(x), dtype=dt, shape=Shape(()))
         if isinstance(x, TV) and x.kind == "tensor":
             return TV(T("tensor", (x.term,)), dtype=dt, shape=x.shape)
